@@ -187,6 +187,17 @@ func evalC09(cs *c09Case) (sig, msg string, info c09Info) {
 	if err1 != nil || err2 != nil {
 		return "", "foreign:C07", info
 	}
+	if cs.Channel == "one-file" && len(cs.Split) == 1 {
+		// the library: one parsed patch file holding all the changes
+		ra := run.API("p.patch", []byte(strings.Join(cs.Changes, "\n")), "f.go", []byte(cs.File))
+		if ra.OK() {
+			if at, err := parseTree(ra.Out); err == nil {
+				if d := ref.FirstDifference(gt, at, ref.Output); d != nil {
+					return "api-differs-from-cli", fmt.Sprintf("patch.File.Apply with all the changes in one patch differs from the command line run over the same patch (want = command line, got = library): %s\n%s\n--- command line ---\n%s\n--- library ---\n%s", d.String(), show(), trunc(string(combOut), 1200), trunc(string(ra.Out), 1200)), info
+				}
+			}
+		}
+	}
 	if d := ref.FirstDifference(wt, gt, ref.Output); d != nil {
 		// Narrower cause: the file is not in gofmt's form (0XFF, "(error)"
 		// as a result, ...). Each run of the chain prints the file, which
